@@ -64,25 +64,36 @@ def run(tier, pid=PID):
         if not r["coverage"].get(a):
             raise MachineryError("action %s never taken in the model with ExternalKill: %s" % (a, r["coverage"]))
     chk.add_tlc(r)
+    # 1c. restart from a later stage (Controller.initialise(k > 0): the earlier stages count as finished and done): a consumer
+    #     in a stage that runs is launched only after its producers of the stages that run, never because of a skipped one
+    r = SC.model_check("c01restart" + tier, SC.RESTART_SHAPES, PROPS, INVS + ["SkippedUntouched", "StageFromStart"], fixobs=FIXOBS,
+                       starts=(1, 2), coverage=False)
+    if r["violated"] or not r["ok"]:
+        raise MachineryError("Scheduler.tla with a starting stage > 0 violates %s:\n%s" % (r["violated"], r["out"][-3000:]))
+    chk.add_tlc(r)
     # 2. real runs, trace validation
     cases = SC.all_cases(shapes, None if thorough else 14, rnd)
     nsched = 14 if thorough else 4
     runs = SC.run_real(cases, nsched, chk.scratch, chk.seed, per_shape_budget=120 if thorough else 40, env_for=kill_env)
-    for h in runs:
-        chk.evaluated((h.shape_name, tuple(h.oa), h.sched))
-        if h.threads:
-            raise MachineryError("harness leaked threads: %s" % h.threads)
-    results, tl = SC.validate_traces("c01" + tier, shapes, runs, fixobs=FIXOBS, props=("TLaunchSafe",) + SC.TRACE_PROPS)
-    for t in tl:
-        chk.add_tlc(t)
-    for h, res in zip(runs, results):
-        if res is None:
-            chk.trace_validated()
-            continue
-        chk.violation(key_for_trace(h, res),
-                      "%s outcomes=%s schedule=%s: %s at step %s: %s" % (h.shape_name, h.oa, h.sched, res["kind"], res.get("step"),
-                                                                       json.dumps(describe(h, res.get("step")))[:1500]),
-                      dict(shape=h.shape_name, oa=h.oa, sched=h.sched))
+    rruns = SC.run_real(SC.restart_cases(), 8 if thorough else 3, chk.scratch, chk.seed + 3, env_for=kill_env)
+    for grp, names, tag in ((runs, shapes, ""), (rruns, SC.RESTART_SHAPES, "rs")):
+        for h in grp:
+            chk.evaluated((h.shape_name, tuple(h.oa), h.start, h.sched))
+            if h.threads:
+                raise MachineryError("harness leaked threads: %s" % h.threads)
+        results, tl = SC.validate_traces("c01" + tag + tier, names, grp, fixobs=FIXOBS, props=("TLaunchSafe",) + SC.TRACE_PROPS)
+        for t in tl:
+            chk.add_tlc(t)
+        for h, res in zip(grp, results):
+            if res is None:
+                chk.trace_validated()
+                continue
+            chk.violation(key_for_trace(h, res),
+                          "%s outcomes=%s start=%d schedule=%s: %s at step %s: %s" % (h.shape_name, h.oa, h.start, h.sched, res["kind"],
+                                                                                    res.get("step"), json.dumps(describe(h, res.get("step")))[:1500]),
+                          dict(shape=h.shape_name, oa=h.oa, sched=h.sched, extra=h.extra))
+    chk.cov["real_runs_restarted_from_a_later_stage"] = len(rruns)
+    runs = runs + rruns
     # the shape expansion and the graph the real code builds must have the same edges; a difference makes the real controller
     # schedule differently from the specification, which the trace validation above reports - if it did not, the shapes
     # (not the code) are suspect: machinery error
@@ -110,7 +121,7 @@ def replay(path):
     from .. import ctl
     d = json.load(open(path))["replay"]
     chk = Check(PID, "quick")
-    h = ctl.run_case(d["shape"], d["oa"], chk.scratch, SC.make_policy(tuple(d["sched"])))
+    h = ctl.run_case(d["shape"], d["oa"], chk.scratch, SC.make_policy(tuple(d["sched"])), **(d.get("extra") or {}))
     h.sid = 1
     results, tl = SC.validate_traces("c01replay", [d["shape"]], [h], fixobs=FIXOBS, props=("TLaunchSafe",) + SC.TRACE_PROPS)
     for e in h.trace:
